@@ -4,7 +4,6 @@ import (
 	"fmt"
 	"math"
 	"sort"
-
 )
 
 // C06 - a successful Set is visible and is never lost without a reason.
@@ -18,7 +17,38 @@ func init() {
 	props["C06"] = &propDef{gen: genC06, check: checkC06}
 }
 
+// genC06DoorkeeperLong: a sole writer pushes thousands of one-off keys through a doorkeeper
+// cache (the per-shard filters fill up and are cleared), then offers a few fresh keys three
+// times in a row each.
+func genC06DoorkeeperLong(g *gen, tier string) *Scenario {
+	sc := &Scenario{Sim: g.sim(), Params: map[string]int64{"dklong": 1, "pressure": 1}}
+	sc.Family = "plain,doorkeeper-long"
+	sc.Cache = g.cache("plain")
+	sc.Cache.Doorkeeper = true
+	sc.Cache.MaxSize = int64(pick(g, 4, 16, 64))
+	sc.Cache.WriteChan, sc.Cache.WriteBuf = 64, 128
+	sc.Sim.Drift = 1
+	sc.Sim.AtomicAll = false
+	sc.Sim.MaxSteps = 6000000
+	fill := g.rng(5500, 9000)
+	sc.Params["dkfill"] = int64(fill)
+	ops := []Op{{Kind: "fill", Key: 2000, N: fill}}
+	for j := 0; j < 4; j++ {
+		k := 10 + j
+		ops = append(ops, Op{Kind: "set", Key: k, Cost: 1}, Op{Kind: "set", Key: k, Cost: 1}, Op{Kind: "set", Key: k, Cost: 1}, Op{Kind: "get", Key: k})
+		if g.pct(50) {
+			ops = append(ops, Op{Kind: "fill", Key: 20000 + 1000*j, N: g.rng(1, 400)})
+		}
+	}
+	sc.Clients = [][]Op{ops}
+	sc.Epilogue = []Op{{Kind: "waitidle"}, {Kind: "wait"}, {Kind: "waitidle"}, {Kind: "snap", Label: "final"}}
+	return sc
+}
+
 func genC06(g *gen, tier string) *Scenario {
+	if g.pct(3) {
+		return genC06DoorkeeperLong(g, tier)
+	}
 	sc := &Scenario{Sim: g.sim(), Params: map[string]int64{}}
 	kind := pick(g, "plain", "plain", "loading")
 	sc.Cache = g.cache(kind)
@@ -189,7 +219,42 @@ func checkC06(rd *RunData) []Violation {
 				evicted[KV{l.Key, l.Val}] = l.Seq
 			}
 			if !pressure {
-				vs = append(vs, Violation{"C06/evicted-without-pressure/" + writersCls, fmt.Sprintf("key %d value %d was EVICTED although the total cost of all keys of the run never exceeds MaxSize %d", l.Key, l.Val, cfg.MaxSize)})
+				// a value whose deadline may have passed is already gone for its readers: which of
+				// expiry and eviction reclaims the slot is not this property's business
+				mayHaveExpired := false
+				for _, r := range rd.Recs {
+					if r.Op.Kind == "set" && r.Op.Key == l.Key && r.Op.TTL > 0 && r.Inv < l.Seq && r.InvT+r.Op.TTL <= l.T {
+						mayHaveExpired = true
+					}
+				}
+				for _, ld := range rd.Loader {
+					if ld.Key == l.Key && ld.TTL > 0 && ld.Start < l.Seq && ld.StartT+ld.TTL <= l.T {
+						mayHaveExpired = true
+					}
+				}
+				if mayHaveExpired {
+					probe("c06.eviction-of-possibly-expired-value")
+					continue
+				}
+				// was some key re-created while a Delete of it had not returned yet? The old entry is
+				// out of the map but still counted by the policy until its REMOVE event is applied.
+				cls := writersCls
+				for _, d := range rd.Recs {
+					if d.Op.Kind != "del" || d.Inv > l.Seq {
+						continue
+					}
+					for _, r := range rd.Recs {
+						if r.Op.Kind == "set" && r.Ok && r.Op.Key == d.Op.Key && r.Inv > d.Inv && r.Inv < l.Seq && (d.Open || d.Ret > r.Inv) {
+							cls = writersCls + ",recreated-during-delete"
+						}
+					}
+					for _, ld := range rd.Loader {
+						if ld.Key == d.Op.Key && ld.Start > d.Inv && ld.Start < l.Seq && (d.Open || d.Ret > ld.Start) {
+							cls = writersCls + ",recreated-during-delete"
+						}
+					}
+				}
+				vs = append(vs, Violation{"C06/evicted-without-pressure/" + cls, fmt.Sprintf("key %d value %d was EVICTED although the total cost of all keys of the run never exceeds MaxSize %d", l.Key, l.Val, cfg.MaxSize)})
 			}
 		}
 	}
@@ -228,6 +293,8 @@ func checkC06(rd *RunData) []Violation {
 	// Set results (offers to the doorkeeper in effect order; an oversize Set never reaches it)
 	offered := map[int]bool{}
 	rejected := map[int64]Rec{}
+	dkLong := rd.Sc.Params["dklong"] == 1
+	refusals := map[int]int{}
 	for _, r := range recs {
 		if r.Op.Kind != "set" || r.Open {
 			continue
@@ -238,9 +305,21 @@ func checkC06(rd *RunData) []Violation {
 			vs = append(vs, Violation{"C06/oversize-admitted/set", fmt.Sprintf("%s (cost %d > MaxSize %d) returned true", r.Op, c, cfg.MaxSize)})
 		case !r.Ok:
 			rejected[r.Val] = r
-			if c <= cfg.MaxSize && !(cfg.Doorkeeper && !offered[r.Op.Key]) {
+			if dkLong {
+				// thousands of first sightings: the filter is cleared now and then, after which a key
+				// counts as new again. Whatever the clearing schedule, a sole writer that offers one key
+				// three times in a row (nothing else offered in between) is not "seeing it for the first
+				// time" on the third offer.
+				refusals[r.Op.Key]++
+				if c <= cfg.MaxSize && refusals[r.Op.Key] >= 3 {
+					vs = append(vs, Violation{"C06/set-refused-without-reason/doorkeeper,three-in-a-row", fmt.Sprintf("%s (cost %d <= MaxSize %d) returned false for the third time in a row (sole writer, no other Set in between, %d keys offered before)", r.Op, c, cfg.MaxSize, rd.Sc.Params["dkfill"])})
+				}
+			} else if c <= cfg.MaxSize && !(cfg.Doorkeeper && !offered[r.Op.Key]) {
 				vs = append(vs, Violation{"C06/set-refused-without-reason/" + map[bool]string{true: "doorkeeper", false: "plain"}[cfg.Doorkeeper], fmt.Sprintf("%s (cost %d <= MaxSize %d, key offered before: %v) returned false", r.Op, c, cfg.MaxSize, offered[r.Op.Key])})
 			}
+		case dkLong:
+			refusals[r.Op.Key] = 0
+			probe("c06.doorkeeper-admitted-after-long-fill")
 		}
 		if c <= cfg.MaxSize {
 			offered[r.Op.Key] = true
